@@ -181,8 +181,9 @@ def load_mutants() -> list[dict]:
     from .mutants import MUTANTS
     from .mutants2 import MUTANTS2
     from .mutants3 import MUTANTS3
-    out = list(MUTANTS) + list(MUTANTS2) + list(MUTANTS3)
-    allp = ["C%02d" % i for i in range(1, 19) if i != 17]
+    from .mutants4 import MUTANTS4
+    out = list(MUTANTS) + list(MUTANTS2) + list(MUTANTS3) + list(MUTANTS4)
+    allp = ["C%02d" % i for i in range(1, 19)]
     out.append({"name": "benign-global-unparse-roundtrip", "property": "ALL", "transform": "unparse", "expect": "silent", "checks": allp})
     out.append({"name": "benign-global-rename-locals", "property": "ALL", "transform": "rename-locals", "expect": "silent", "checks": allp})
     out.append({"name": "benign-global-reorder-methods", "property": "ALL", "transform": "reorder-methods", "expect": "silent", "checks": allp})
